@@ -90,6 +90,9 @@ impl<'a> SView<'a> {
         // a poll found nothing (the loop ends only when all its sources are idle).
         let mut pending_internal: std::collections::VecDeque<usize> = Default::default();
         let mut last_next_idle = false;
+        // the current consumer poll runs on a nearly exhausted cooperative budget: the channel's queues may
+        // answer Pending although they hold items, so nothing is certain about what it processed
+        let mut in_coop_poll = false;
         // ids for which the order of an expiry / internal cancellation and a reuse of the id is not
         // determined by the history: every instance with such an id is exempt from per-instance checks
         let mut tainted: std::collections::BTreeSet<u64> = Default::default();
@@ -125,14 +128,20 @@ impl<'a> SView<'a> {
         for r in &run.recs {
             let now = r.t_ns as i128;
             match &r.ev {
-                Ev::PollStart { task } if *task == consumer => cur_consumer_start = Some(r.seq),
-                Ev::PollEnd { task, .. } if *task == consumer => {
+                Ev::PollStart { task, coop } if *task == consumer => {
+                    cur_consumer_start = Some(r.seq);
+                    in_coop_poll = *coop;
+                }
+                Ev::PollEnd { task, woken, .. } if *task == consumer => {
+                    // a poll that ended with the task already woken again (a tokio resource ran out of cooperative
+                    // budget mid-poll) proves nothing about what the channel has processed: decide at a later one
+                    let settled = !*woken;
                     let pstart = cur_consumer_start.take();
                     if let Some(s) = pstart {
                         consumer_polls.push((s, r.seq, r.t_ns));
                     }
                     // the poll's last transport read found nothing: every queued internal cancellation has been processed
-                    if last_next_idle || inbound_closed_seq.is_some() {
+                    if settled && (last_next_idle || inbound_closed_seq.is_some()) {
                         for i in pending_internal.drain(..) {
                             let id = run.insts[i].id;
                             if tracked.get(&id) == Some(&i) {
@@ -146,6 +155,7 @@ impl<'a> SView<'a> {
                     last_next_idle = false;
                     let exp: Vec<(u64, usize)> = tracked
                         .iter()
+                        .filter(|_| settled)
                         .filter(|(id, &i)| {
                             let d = run.insts[i].deadline_ns.max(amb_deadline.get(*id).copied().unwrap_or(i128::MIN));
                             let rt = tl[i].read.map(|x| x.1 as i128).unwrap_or(0);
@@ -235,7 +245,9 @@ impl<'a> SView<'a> {
                     // this loop iteration certainly processed the oldest queued internal cancellation (before
                     // the read; for the bounds of the request just read it stays uncertain, which is the
                     // conservative side)
-                    if let Some(i) = pending_internal.pop_front() {
+                    if in_coop_poll {
+                        // no certainty in a budget-limited poll
+                    } else if let Some(i) = pending_internal.pop_front() {
                         let id = run.insts[i].id;
                         if tracked.get(&id) == Some(&i) {
                             tracked.remove(&id);
